@@ -1,308 +1,312 @@
 """Which harnesses decide which property, at which tier, under which bounds.
 
-Every entry names the real functions the harness encodes (they are compiled from /repo's
-current tree at run time), the bound inside which CBMC's verdict holds, and every stub/cut
-that is part of the claim. run_check.py copies these into the evidence file together with what
-the run measured.
+Every entry names the real functions the harness encodes (compiled from /repo's current tree
+at run time), the bound inside which CBMC's verdict holds, every stub/cut that is part of the
+claim, and `cost` = the solver seconds measured on the unchanged tree in this sandbox
+(16 cores otherwise idle). The quick tier only contains harnesses with cost <= ~250 s so that
+every property's quick check stays far below 15 minutes; the thorough tier adds the larger
+bounds. run_check.py copies these entries into the evidence file together with what the run
+measured.
 """
 
-CUT_SYNTAX = "cut: Error::syntax -> code+index only (snippet rendering is decided by u_error_syntax_*)"
+CUT_SYNTAX = "cut: Error::syntax -> code+index only (snippet rendering is decided by u_error_syntax_n6)"
 MAXEPU8 = "env model: _mm_max_epu8 lane-wise (Kani lacks simd_select); validated natively by selftest"
 CUT_FMT = "cut: core::fmt::write / alloc::fmt::format -> no-op (subject is not formatting)"
+M_WS = "contract model: Parser::skip_space -> first non-whitespace byte (justified by u_skip_space_n6)"
+M_STR = "contract model: Parser::skip_string -> RFC 8259 string recogniser (justified by u_skip_string_n8)"
+M_NUM = "contract model: Parser::skip_number -> RFC 8259 number recogniser (justified by u_skip_number_n5/n6)"
+M_ONE = ("contract model: Parser::skip_one -> whitespace + abstract value recogniser E (symbolic table = induction hypothesis; "
+         "dispatch decided by m_skip_one_dispatch_n7)")
+M_NEST = ("contract model: Parser::skip_array/skip_object -> abstract recogniser E (induction hypothesis; steps decided by "
+          "m_skip_array_n6 / m_skip_object_n6)")
+CUT_PIT = "cut: Parser::peek_invalid_type -> type-mismatch error without re-parsing the offending value"
+CUT_FIX = "cut: Parser::fix_position -> identity (error rendering is not the subject)"
+M_KEY = ("contract model: Parser::parse_string_raw / parse_str -> borrowed span, escape-free keys only (justified by "
+         "u_parse_string_raw_borrowed_n8); keys with escapes assumed away")
+M_DOMSTR = ("contract model: Parser::parse_string_owned / parse_string_inplace -> RFC 8259 string recogniser + string event "
+            "(decoding itself is C09's subject)")
+M_DOMVAL = "contract model: Parser::parse_value / parse_value2 -> whitespace + abstract value recogniser E + value event (induction hypothesis)"
+ATOMIC = ("env model: AtomicPtr of lazyvalue/value.rs and owned.rs -> harness/common/atomic_shim.rs (other reader may publish at every "
+          "atomic step; compare_exchange_weak may fail spuriously; sequentially consistent)")
+CUT_DROP = ("cut: core::mem::drop -> forget (the recursive drop glue of Parsed/OwnedLazyValue exhausts memory; which decoding is "
+            "returned/cached is decided, that a box is freed is not)")
+CUT_LOAD = "cut: Parser::load_owned_lazyvalue -> fixed decoding Bool(true); Read::from -> empty reader (unused by the cut parser)"
+CUT_PF = "cut: sonic_number::parse_float -> nondeterministic Ok(Float)/Err(FloatMustBeFinite) (classification and index only)"
+INTR = "env models (lane-wise from the Intel pseudo-code): "
 
 
 class H:
-    def __init__(self, name, crate, props, funcs, bound, tier="quick", timeout=900, mem_gb=12, stubs=(),
-                 args=(), expect="pass", finding=None, thorough_only=False, note="", qname=None, exp_gb=3, unwindset=None, native_replay=True):
+    def __init__(self, name, crate, props, funcs, bound, tier="quick", cost=None, timeout=None, mem_gb=12, exp_gb=3, stubs=(),
+                 args=(), expect="pass", finding=None, qname=None, unwindset=None, native_replay=True):
         self.name = name
         self.crate = crate
         self.props = props
         self.funcs = funcs
         self.bound = bound
         self.tier = tier  # 'quick' (runs in both tiers) or 'thorough'
-        self.timeout = timeout
+        self.cost = cost
+        self.timeout = timeout or (900 if tier == "quick" else 3600)
         self.mem_gb = mem_gb
+        self.exp_gb = exp_gb
         self.stubs = list(stubs)
         self.args = list(args)
         self.expect = expect  # 'pass' | 'known-fail' (harness encodes a listed known finding)
         self.finding = finding
-        self.note = note
         self.qname = qname
-        self.exp_gb = exp_gb
         self.unwindset = unwindset
         self.native_replay = native_replay
 
 
-HARNESSES = [
-    # ---------------- parser.rs: kernels -------------------------------------------------------
-    H("k_escaped_u64", "main", ["C10"], ["parser::get_escaped_branchless_u64"],
-      "all 2^64 backslash masks x both carry values (complete)"),
-    H("k_escaped_u32", "main", ["C10"], ["parser::get_escaped_branchless_u32"],
-      "all 2^32 backslash masks x both carry values (complete)"),
-    H("k_is_whitespace", "main", ["C02", "C10"], ["parser::is_whitespace"], "all 256 bytes (complete)"),
-    # ---------------- parser.rs: scanners ------------------------------------------------------
+T = "thorough"
+HARNESSES = []
+
+
+def add(*hs):
+    HARNESSES.extend(hs)
+
+
+# ================= src/parser.rs : kernels and scanners ==========================================
+add(
+    H("k_escaped_u64", "main", ["C10"], ["parser::get_escaped_branchless_u64"], "all 2^64 backslash masks x both carry values (complete)", cost=1),
+    H("k_escaped_u32", "main", ["C10"], ["parser::get_escaped_branchless_u32"], "all 2^32 backslash masks x both carry values (complete)", cost=1),
+    H("k_is_whitespace", "main", ["C02", "C10"], ["parser::is_whitespace"], "all 256 bytes (complete)", cost=1),
     H("u_skip_string_n8", "main", ["C02", "C14", "C09", "C01"],
       ["Parser::skip_string", "Parser::skip_escaped_chars", "Read::{peek,peek_n,next,next_n,eat,remain}"],
-      "every byte string of length <= 8 after an opening quote (scalar path; 32-byte block path not entered)",
-      stubs=[CUT_SYNTAX], timeout=900),
-    H("u_skip_number_n6", "main", ["C02", "C14", "C08", "C01"],
-      ["Parser::do_skip_number", "Parser::skip_exponent", "Parser::skip_single_digit"],
-      "every byte string of length <= 6 starting with '-' or a digit (scalar path)", stubs=[CUT_SYNTAX]),
-    H("u_skip_number_n8", "main", ["C02", "C14", "C08"],
-      ["Parser::do_skip_number", "Parser::skip_exponent", "Parser::skip_single_digit"],
-      "every byte string of length <= 8 starting with '-' or a digit (scalar path)", stubs=[CUT_SYNTAX],
-      tier="thorough", timeout=2400),
+      "every byte string of length <= 8 after an opening quote (scalar path)", stubs=[CUT_SYNTAX], cost=70),
+    H("u_skip_number_n5", "main", ["C02", "C14", "C08", "C01"], ["Parser::do_skip_number", "Parser::skip_exponent", "Parser::skip_single_digit"],
+      "every byte string of length <= 5 starting with '-' or a digit (scalar path)", stubs=[CUT_SYNTAX], cost=257),
+    H("u_skip_number_n6", "main", ["C02", "C14", "C08"], ["Parser::do_skip_number", "Parser::skip_exponent", "Parser::skip_single_digit"],
+      "every byte string of length <= 6 starting with '-' or a digit (scalar path)", stubs=[CUT_SYNTAX], tier=T, cost=240),
+    H("u_skip_number_n8", "main", ["C02", "C14", "C08"], ["Parser::do_skip_number", "Parser::skip_exponent", "Parser::skip_single_digit"],
+      "every byte string of length <= 8 starting with '-' or a digit (scalar path)", stubs=[CUT_SYNTAX], tier=T, cost=600),
     H("u_skip_space_n6", "main", ["C02", "C10", "C14", "C01"], ["Parser::skip_space"],
-      "every buffer of length <= 6 x every start index (scalar paths; 64-byte block path not entered)"),
-    H("u_literal_n6", "main", ["C02", "C14"], ["Parser::parse_literal"],
-      "every byte string of length <= 6 starting with t/f/n", stubs=[CUT_SYNTAX]),
+      "every buffer of length <= 6 x every start index (scalar paths)", cost=60),
+    H("u_literal_n6", "main", ["C02", "C14"], ["Parser::parse_literal"], "every byte string of length <= 6 starting with t/f/n", stubs=[CUT_SYNTAX], cost=3),
     H("u_skip_string_unchecked_n8", "main", ["C10", "C01"], ["Parser::skip_string_unchecked"],
-      "every buffer of length <= 8 that starts with a well-formed string literal body", stubs=[CUT_SYNTAX]),
+      "every buffer of length <= 8 that starts with a well-formed string literal body", stubs=[CUT_SYNTAX], cost=25),
     H("u_get_next_token_n6", "main", ["C10", "C01"], ["Parser::get_next_token::<2>"],
-      "every buffer of length <= 6 x every start index x advance in {0,1}; tokens {'\"','}'}"),
-    H("u_parse_trailing_n6", "main", ["C02"], ["Parser::parse_trailing (bounds-checked reader)"],
-      "every buffer of length <= 6 x every start index", stubs=[CUT_SYNTAX]),
-    H("u_parse_object_clo_n6", "main", ["C02", "C14"], ["Parser::parse_object_clo"],
-      "every buffer of length <= 6 x every start index", stubs=[CUT_SYNTAX]),
-    # ---------------- parser.rs: modular steps -------------------------------------------------
-    H("m_skip_array_n6", "main", ["C02", "C14"], ["Parser::skip_array", "Parser::skip_space", "Parser::skip_space_peek"],
-      "every buffer of length <= 6 after '[' x every element recogniser E (symbolic table)",
-      stubs=[CUT_SYNTAX, "contract model: Parser::skip_one -> abstract element recogniser E"]),
-    H("m_skip_object_n7", "main", ["C02", "C14"],
-      ["Parser::skip_object", "Parser::skip_string", "Parser::parse_object_clo", "Parser::skip_space"],
-      "every buffer of length <= 7 after '{' x every element recogniser E (symbolic table)",
-      stubs=[CUT_SYNTAX, "contract model: Parser::skip_one -> abstract element recogniser E"]),
-    # ---------------- error.rs -----------------------------------------------------------------
-    H("u_error_syntax_n6", "main", ["C20", "C01"], ["Error::syntax", "Position::from_index"],
-      "every input of length <= 6 x every index <= len",
-      stubs=["cut: alloc::fmt::format, String::from_utf8_lossy, str::repeat -> empty (snippet text only; window arithmetic real)"]),
-    H("u_error_classify", "main", ["C20"], ["Error::classify", "Error::is_not_found"],
-      "all 27 data-free error codes (complete)"),
-]
+      "every buffer of length <= 6 x every start index x advance in {0,1}; tokens {'\"','}'}", cost=110),
+    H("u_parse_trailing_n6", "main", ["C02"], ["Parser::parse_trailing (bounds-checked reader)"], "every buffer of length <= 6 x every start index", stubs=[CUT_SYNTAX], cost=50),
+    H("u_parse_object_clo_n6", "main", ["C02", "C14"], ["Parser::parse_object_clo"], "every buffer of length <= 6 x every start index", stubs=[CUT_SYNTAX], cost=50),
+    H("u_skip_container_tail_n8", "main", ["C10", "C01"], ["Parser::skip_container (zero-padded tail block)", "parser::skip_container_loop", "parser::get_string_bits"],
+      "every buffer of length <= 8 without a backslash outside strings x {array, object}", stubs=[CUT_SYNTAX], cost=145, exp_gb=6),
+)
 
-HARNESSES += [
-    # ---------------- util/string.rs -------------------------------------------------------------
-    H("k_string_block", "main", ["C09", "C02"], ["StringBlock::new", "StringBlock::{has_unescaped,has_quote_first,has_backslash,quote_index,bs_index,unescaped_index}", "BitMask::before/first_offset"],
-      "all 32-byte blocks (complete)", stubs=[MAXEPU8]),
-    H("k_string_tables", "main", ["C05", "C09"], ["ESCAPED_TAB", "QUOTE_TAB", "NEED_ESCAPED"], "all 256 bytes (complete)"),
-    H("k_check_cross_page", "main", ["C01", "C05"], ["check_cross_page"], "all pointers <= usize::MAX-64 (complete)"),
-    H("u_format_string_n4", "main", ["C05", "C01"], ["format_string", "escape_unchecked", "escaped_mask", "check_cross_page"],
-      "every byte string of length <= 4 (superset of valid UTF-8), with and without quotes; tail path (n < 32)",
-      stubs=[MAXEPU8, CUT_FMT], mem_gb=20, exp_gb=8, timeout=1200),
-    H("u_format_string_n6", "main", ["C05", "C01"], ["format_string", "escape_unchecked", "escaped_mask", "check_cross_page"],
-      "every byte string of length <= 6 (superset of valid UTF-8), with and without quotes; tail path (n < 32)",
-      stubs=[MAXEPU8, CUT_FMT], mem_gb=32, exp_gb=16, timeout=2400, tier="thorough"),
-    H("u_format_string_n8", "main", ["C05"], ["format_string", "escape_unchecked", "escaped_mask", "check_cross_page"],
-      "every byte string of length <= 8 (superset of valid UTF-8), with and without quotes; tail path (n < 32)",
-      stubs=[MAXEPU8, CUT_FMT], tier="thorough", timeout=3000, mem_gb=40, exp_gb=30),
-    # ---------------- util/unicode.rs ------------------------------------------------------------
-    H("k_hex_to_u32", "main", ["C09", "C01"], ["hex_to_u32_nocheck", "DIGIT_TO_VAL32"], "all 2^32 four-byte groups (complete)"),
-    H("k_codepoint_to_utf8", "main", ["C09", "C01"], ["codepoint_to_utf8"], "all u32 code points (complete)"),
-    H("k_unicode_inplace", "main", ["C09", "C01"], ["handle_unicode_codepoint_mut", "repr_utf16_surrogate", "hex_to_u32_nocheck", "codepoint_to_utf8"],
-      "all 2^80 sequences `\\uXXXX` + 6 following bytes x {strict, lossy} (complete for one escape sequence / surrogate pair)"),
-    H("k_unicode_copying", "main", ["C09", "C02"], ["Parser::parse_escaped_utf8", "codepoint_to_utf8 (caller's validity test)"],
-      "every buffer of length <= 10 after `\\u` (all truncations) x {strict, lossy}", stubs=[CUT_SYNTAX]),
-    H("u_parse_string_raw_borrowed_n8", "main", ["C09", "C02", "C10"], ["Parser::parse_string_raw (escape-free branch)"],
-      "every buffer of length <= 8 after the opening quote with no backslash before the closing quote", stubs=[CUT_SYNTAX]),
-    # ---------------- value/node.rs --------------------------------------------------------------
-    H("k_meta_roundtrip_idx_lt_2p29", "main", ["C03", "C01"], ["Meta::pack_dom_node", "Meta::unpack_dom_node", "Meta::get_kind", "Meta::get_type", "Meta::unpack_strlen"],
-      "all four dom kinds x all idx < 2^29 x all len: u32 (complete for the field width)"),
-    H("k_meta_roundtrip_idx_ge_2p29", "main", ["C03", "C01"], ["Meta::pack_dom_node", "Meta::unpack_dom_node"],
-      "all idx in [2^29, 2^31) x all len: u32 - the region of known finding F6", expect="known-fail", finding="F6"),
-    H("k_meta_static_types", "main", ["C03"], ["Meta::new", "Meta::get_type", "Meta::pack_static_str", "Meta::unpack_strlen"],
-      "all 9 static type tags, all static string lengths < u32::MAX (complete)"),
-]
-
-M_WS = "contract model: Parser::skip_space -> first non-whitespace byte (justified by u_skip_space_n6)"
-M_STR = "contract model: Parser::skip_string -> RFC 8259 string recogniser (justified by u_skip_string_n8)"
-M_NUM = "contract model: Parser::skip_number -> RFC 8259 number recogniser (justified by u_skip_number_n6)"
-M_ONE = "contract model: Parser::skip_one -> whitespace + abstract value recogniser E (symbolic table = induction hypothesis; dispatch decided by m_skip_one_dispatch_n7)"
-M_NEST = "contract model: Parser::skip_array/skip_object -> abstract recogniser E (induction hypothesis; steps decided by m_skip_array_n6 / m_skip_object_n7)"
-CUT_PIT = "cut: Parser::peek_invalid_type -> type-mismatch error without re-parsing the offending value"
-M_KEY = "contract model: Parser::parse_string_raw -> borrowed span, escape-free keys only (justified by u_parse_string_raw_borrowed_n8); keys with escapes assumed away"
-HARNESSES += [
-    H("m_skip_one_dispatch_n7", "main", ["C02", "C14", "C13", "C01", "C10"], ["Parser::skip_one", "nested! (depth budget)", "Parser::parse_literal"],
-      "every buffer of length <= 7 x every start index x every budget d in 1..=255 x every nested recogniser E",
-      stubs=[CUT_SYNTAX, M_WS, M_STR, M_NUM, M_NEST]),
-    H("m_get_array_checked_n7", "main", ["C10", "C14"], ["Parser::get_from_array_checked", "Parser::skip_space_peek"],
-      "every buffer of length <= 7 x index 0..=3 x every E", stubs=[CUT_SYNTAX, M_WS, M_ONE, CUT_PIT]),
-    H("m_get_object_checked_n8", "main", ["C10", "C14"], ["Parser::get_from_object_checked", "Parser::parse_object_clo"],
-      "every buffer of length <= 8 x every escape-free ASCII key of length <= 2 x every E", stubs=[CUT_SYNTAX, M_WS, M_ONE, M_KEY, CUT_PIT], timeout=1200),
-    H("m_get_object_checked_n9", "main", ["C10", "C14"], ["Parser::get_from_object_checked", "Parser::parse_object_clo"],
-      "every buffer of length <= 9 x every escape-free ASCII key of length <= 2 x every E", stubs=[CUT_SYNTAX, M_WS, M_ONE, M_KEY, CUT_PIT], timeout=2400, tier="thorough"),
-    H("m_array_elem_lazy_n7", "main", ["C12", "C14"], ["Parser::parse_array_elem_lazy (check = true)", "Parser::skip_space_peek"],
-      "every buffer of length <= 7 x every start index x first in {true,false} x every E", stubs=[CUT_SYNTAX, M_WS, M_ONE]),
-    H("m_entry_lazy_n9", "main", ["C12", "C14"], ["Parser::parse_entry_lazy (check = true)", "Parser::parse_object_clo"],
-      "every buffer of length <= 9 x every start index x first in {true,false} x every E; escape-free keys",
-      stubs=[CUT_SYNTAX, M_WS, M_ONE, "contract model: Parser::parse_str -> borrowed span, escape-free keys only (justified by u_parse_string_raw_borrowed_n8)"], timeout=1500),
-    H("m_get_array_unchecked_n8", "main", ["C10"], ["Parser::get_from_array (unchecked index walker)"],
-      "every well-formed JSON text of length <= 8 whose value is an array x index 0..=2 (full value grammar, no abstraction)",
-      stubs=[CUT_SYNTAX, M_WS, CUT_PIT, "contract models: skip_container (u_skip_container_tail_n8), skip_string_unchecked2 (u_skip_string_unchecked_n8), get_next_token (u_get_next_token_n6), skip_one on well-formed input -> full value grammar"],
-      timeout=1800, exp_gb=6),
-    H("u_parser_error_clamp_n6", "main", ["C20", "C01"], ["Parser::error", "Parser::error_index"],
-      "every buffer of length <= 6 x every reader index x every recorded error index (usize)", stubs=[CUT_SYNTAX]),
-    H("u_parser_error_clamp_padded_n6", "main", ["C20", "C01"], ["Parser::error (PaddedSliceRead)", "PaddedSliceRead::{index,set_index,as_u8_slice}"],
-      "6-byte document + 64-byte padding x every cursor position inside the padded buffer x every recorded error index", stubs=[CUT_SYNTAX]),
-]
-
-CUT_FIX = "cut: Parser::fix_position -> identity (error rendering is not the subject)"
-_DEPTH = [("m_depth_any_seq", "deserialize_any on '['"), ("m_depth_any_map", "deserialize_any on '{'"), ("m_depth_seq", "deserialize_seq/tuple/tuple_struct"),
-          ("m_depth_map", "deserialize_map"), ("m_depth_struct_seq", "deserialize_struct on '['"), ("m_depth_struct_map", "deserialize_struct on '{'")]
-for _n, _f in _DEPTH:
-    HARNESSES.append(H(_n, "main", ["C01"], tier="thorough" if "_any_" in _n else "quick", timeout=3600 if "_any_" in _n else 900, funcs=["serde::de::DepthGuard::guard/drop", "impl Deserializer for &mut Deserializer<R>: " + _f, "Deserializer::end_seq/end_map"],
-                       bound="every budget d in 1..=255 (inductive step: nested access sees d-1, d restored, d == 1 rejected without recursing); input fixed to an empty container",
-                       stubs=[CUT_SYNTAX, M_WS, CUT_PIT, CUT_FIX]))
-HARNESSES += [
-    H("m_seq_next_element_n6", "main", ["C02"], ["SeqAccess::next_element_seed", "Deserializer::end_seq", "deserialize_ignored_any"],
-      "every buffer of length <= 6 x every start index x first in {true,false} x every E", stubs=[CUT_SYNTAX, M_WS, M_ONE]),
-    H("m_end_seq_map_n6", "main", ["C02"], ["Deserializer::end_seq", "Deserializer::end_map", "Parser::parse_array_end"],
-      "every buffer of length <= 6 x every start index", stubs=[CUT_SYNTAX, M_WS]),
-    H("m_stream_latch_n5", "main", ["C20"], ["StreamDeserializer::next", "Deserializer::into_stream"],
-      "every buffer of length <= 5 x every start index x arbitrary latch state x every E; two consecutive calls", stubs=[CUT_SYNTAX, M_WS, M_ONE]),
-    H("u_deserialize_rawnumber_n7", "main", ["C08", "C02"], ["Deserializer::deserialize_rawnumber"],
-      "every buffer of length <= 7 (bare and quoted literals)", stubs=[CUT_SYNTAX, M_WS, M_NUM]),
-]
-
-ATOMIC = ("env model: AtomicPtr of lazyvalue/value.rs and owned.rs -> harness/common/atomic_shim.rs (other reader may publish at every atomic step; "
-          "compare_exchange_weak may fail spuriously; sequentially consistent)")
-HARNESSES += [
-    H("e_lazy_parse_from", "main", ["C18", "C01"], native_replay=False, funcs= ["lazyvalue::value::Inner::parse_from", "impl Clone for Inner", "impl Drop for Inner"],
-      bound="one shared Inner: 2 reads + 1 read through a clone by the reader under test, clone before/after the first read, both drop orders, "
-      "the other reader's publish at any of the atomic steps (all two-reader interleavings at atomic-step granularity)",
-      stubs=[ATOMIC, "cut: from_slice_unchecked::<String> -> fixed decoding \"x\"", "instrumented: Arc::new -> same allocation + reference ledger"]),
-    H("e_lazy_parse_from_frees", "main", ["C18", "C01"], native_replay=False, funcs= ["lazyvalue::value::Inner::parse_from", "impl Clone for Inner", "impl Drop for Inner"],
-      bound="same histories without the ledger's extra handles: every release really frees (CBMC dealloc-layout / double-free / use-after-free checks)",
-      stubs=[ATOMIC, "cut: from_slice_unchecked::<String> -> fixed decoding \"x\""]),
-]
-
-HARNESSES += [
-    H("m_array_iter_latch", "main", ["C12", "C20"], ["ArrayJsonIter::next_elem_impl"],
-      "arbitrary (first, ending, skip_strict) state x valid/invalid deferred UTF-8 verdict x every outcome of the element driver; two consecutive calls",
-      stubs=["contract model: Parser::parse_array_elem_lazy -> nondeterministic {element, end, error} (its grammar is decided by m_array_elem_lazy_n7)"]),
-    H("m_object_iter_latch", "main", ["C12", "C20"], ["ObjectJsonIter::next_entry_impl"],
-      "arbitrary (first, ending, skip_strict) state x valid/invalid deferred UTF-8 verdict x every outcome of the entry driver; two consecutive calls",
-      stubs=["contract model: Parser::parse_entry_lazy -> nondeterministic {entry, end, error}"]),
-    H("u_owned_from_lazy_types", "main", ["C13", "C01"], ["impl From<LazyValue> for OwnedLazyValue", "OwnedLazyValue::new", "OwnedLazyValue::get_type/as_bool", "LazyRaw::get_type"],
-      "raw text of each JSON value class (true,false,null,number,negative number,string,[],{}), conversion From<LazyValue>; string escape status symbolic", exp_gb=8),
-    H("u_owned_new_types", "main", ["C13", "C01"], ["OwnedLazyValue::new (used by to_lazyvalue and the parser)", "OwnedLazyValue::get_type/as_bool", "LazyRaw::get_type"],
-      "raw text of each JSON value class, constructor `new`; string escape status symbolic", exp_gb=8),
-]
-
-for _n, _w in (("k_block_step_obj_w0", 0), ("k_block_step_arr_w16", 16), ("k_block_step_obj_w32", 32), ("k_block_step_arr_w48", 48)):
-    HARNESSES.append(H(_n, "main", ["C10"], ["parser::skip_container_loop", "parser::get_string_bits", "get_escaped_branchless_u64", "prefix_xor (fallback)", "u8x64::eq/bitmask"],
-                       "every carry state (in-string, pending escape, counters < 2^20) x every 64-byte block that is symbolic in the 16-byte window at offset %d and neutral ('x') elsewhere" % _w,
-                       timeout=3600, exp_gb=6, tier="thorough",
-                       unwindset=[("ref_block_step", None, 66), ("windowed", None, 18), ("block_step_body", None, 18)]))
-HARNESSES += [
-    H("u_skip_container_tail_n8", "main", ["C10", "C01"], ["Parser::skip_container (zero-padded tail block)", "parser::skip_container_loop"],
-      "every buffer of length <= 8 x {array, object}", stubs=[CUT_SYNTAX], timeout=1500, exp_gb=6),
-]
-
-HARNESSES += [
-    H("k_float_nonfinite_null", "main", ["C05", "C08"], ["Serializer::serialize_f64", "Serializer::serialize_f32", "Formatter::write_null/write_f64/write_f32"],
-      "all 2^64 f64 and all 2^32 f32 bit patterns (complete for the finite/non-finite branch)", stubs=["cut: ryu::Buffer::format_finite -> \"1.5\" (digit generation is outside the claim)"]),
-]
-
-
-HARNESSES += [
-    H("b_skip_string_w29", "main", ["C02", "C14", "C09", "C01"], ["Parser::skip_string (32-byte block path + tail)", "Parser::skip_escaped_chars", "u8x32::{eq,le,bitmask}"],
-      "38-byte buffer: neutral 'x' except a 6-byte symbolic window at 29..35 (across the block edge) and a closing quote at 36",
-      stubs=[CUT_SYNTAX, MAXEPU8], timeout=1500, exp_gb=8, mem_gb=20,
-      unwindset=[("::skip_string", -1, 10), ("ref_string_end", None, 40), ("ref_has_backslash", None, 40), ("windowed", None, 8), ("skip_escaped_chars", None, 6)]),
-]
-
-HARNESSES += [
+# block (SIMD) paths: windowed buffers, per-loop bounds
+add(
     H("b_skip_string_unchecked_w27", "main", ["C10", "C12", "C01"], ["Parser::skip_string_unchecked (32-byte block path, escape carry between blocks)", "get_escaped_branchless_u32"],
       "64-byte buffer: neutral 'x' except a 10-byte symbolic window at 27..37 (across the block edge) and a closing quote at 40; well-formed literals only",
-      stubs=[CUT_SYNTAX], timeout=1500, exp_gb=6,
-      unwindset=[("ref_string_end", None, 66), ("ref_has_backslash", None, 66), ("windowed", None, 12), ("::skip_string_unchecked", None, 6)]),
+      stubs=[CUT_SYNTAX], cost=90, exp_gb=6,
+      unwindset=[("ref_string_end", None, 66), ("ref_has_backslash", None, 66), ("windowed", None, 12), ("::skip_string_unchecked", -1, 6)]),
     H("b_skip_string_unchecked_tail_w27", "main", ["C10", "C12", "C13", "C01"], ["Parser::skip_string_unchecked (block loop, then the scalar tail with the escape carry)"],
       "40-byte buffer: neutral 'x' except a 10-byte symbolic window at 27..37 and a closing quote at 38; well-formed literals only",
-      stubs=[CUT_SYNTAX], timeout=1500, exp_gb=6,
+      stubs=[CUT_SYNTAX], cost=95, exp_gb=6,
       unwindset=[("ref_string_end", None, 50), ("ref_has_backslash", None, 50), ("windowed", None, 12), ("::skip_string_unchecked", -1, 16)]),
-    H("b_skip_space_cache_w2", "main", ["C02", "C10", "C14", "C01"], ["Parser::skip_space (64-byte block path, non-space bitmap cache fast path)", "util::arch::fallback::get_nonspace_bits"],
-      "80-byte buffer: two leading whitespace bytes, a 10-byte symbolic window at 2..12, neutral 'x' elsewhere; three consecutive calls",
-      timeout=1500, exp_gb=6,
-      unwindset=[("get_nonspace_bits", None, 66), ("ref_skip_ws", None, 16), ("windowed", None, 12), ("::skip_space", -1, 16), ("b_skip_space_cache_w2", None, 5)]),
-    H("b_skip_number_w30", "main", ["C02", "C14", "C08", "C01"], ["Parser::do_skip_number (32-byte block path, is_float carry, exponent inside a block)", "i8x32::{gt,bitmask}"],
+    H("b_get_next_token_w28", "main", ["C10"], ["Parser::get_next_token::<2> (32-byte block loop + tail)"],
+      "40-byte buffer: neutral 'x' except an 8-byte symbolic window at 28..36; tokens {'\"','}'}; advance in {0,1}",
+      cost=70, exp_gb=6, unwindset=[("windowed", None, 10), ("::get_next_token", -2, 12), ("b_get_next_token_w28", None, 42)]),
+    H("b_skip_number_w30", "main", ["C02", "C14", "C08"], ["Parser::do_skip_number (32-byte block path, is_float carry, exponent inside a block)", "i8x32::{gt,bitmask}"],
       "66-byte buffer of digits with a 6-byte symbolic window at 30..36 (lanes 28..31 of the first chunk and 0..1 of the next) and a comma at 44",
-      stubs=[CUT_SYNTAX], timeout=1800, exp_gb=8, mem_gb=20,
+      stubs=[CUT_SYNTAX], cost=185, exp_gb=8, mem_gb=20,
       unwindset=[("ref_number_end", None, 48), ("windowed", None, 8), ("::do_skip_number", -1, 14), ("::do_skip_number", -2, 14), ("::skip_exponent", None, 16)]),
-]
+    H("b_skip_string_w29", "main", ["C02", "C14", "C09"], ["Parser::skip_string (32-byte block path + tail)", "Parser::skip_escaped_chars", "u8x32::{eq,le,bitmask}"],
+      "38-byte buffer: neutral 'x' except a 6-byte symbolic window at 29..35 (across the block edge) and a closing quote at 36",
+      stubs=[CUT_SYNTAX, MAXEPU8], tier=T, cost=520, exp_gb=8, mem_gb=20,
+      unwindset=[("::skip_string", -1, 10), ("ref_string_end", None, 40), ("ref_has_backslash", None, 40), ("windowed", None, 8), ("skip_escaped_chars", None, 6)]),
+    H("b_skip_space_cache_w2", "main", ["C02", "C10", "C14"], ["Parser::skip_space (64-byte block path, non-space bitmap cache fast path)", "util::arch::fallback::get_nonspace_bits"],
+      "80-byte buffer: two leading whitespace bytes, a 10-byte symbolic window at 2..12, neutral 'x' elsewhere; three consecutive calls",
+      tier=T, cost=940, exp_gb=6,
+      unwindset=[("get_nonspace_bits", None, 66), ("ref_skip_ws", None, 16), ("windowed", None, 12), ("::skip_space", -1, 16), ("b_skip_space_cache_w2", None, 5)]),
+)
+for _n, _w in (("k_block_step_obj_w0", 0), ("k_block_step_arr_w16", 16), ("k_block_step_obj_w32", 32), ("k_block_step_arr_w48", 48)):
+    add(H(_n, "main", ["C10"], ["parser::skip_container_loop", "parser::get_string_bits", "get_escaped_branchless_u64", "prefix_xor (fallback)", "u8x64::eq/bitmask"],
+          "every carry state (in-string, pending escape, counters < 2^20; no backslash outside strings) x every 64-byte block that is symbolic in the "
+          "16-byte window at offset %d and neutral ('x') elsewhere" % _w, tier=T, cost=1300, exp_gb=6,
+          unwindset=[("ref_block_step", None, 66), ("windowed", None, 18), ("block_step_body", None, 18)]))
 
-HARNESSES += [
+# modular steps of the validating skipper
+add(
+    H("m_skip_array_n6", "main", ["C02", "C14"], ["Parser::skip_array", "Parser::skip_space_peek"],
+      "every buffer of length <= 6 after '[' x every element recogniser E (symbolic table)", stubs=[CUT_SYNTAX, M_WS, M_ONE], cost=60),
+    H("m_skip_object_n6", "main", ["C02", "C14"], ["Parser::skip_object", "Parser::parse_object_clo"],
+      "every buffer of length <= 6 after '{' x every E", stubs=[CUT_SYNTAX, M_WS, M_STR, M_ONE], cost=280),
+    H("m_skip_object_n7", "main", ["C02", "C14"], ["Parser::skip_object", "Parser::parse_object_clo"],
+      "every buffer of length <= 7 after '{' x every E", stubs=[CUT_SYNTAX, M_WS, M_STR, M_ONE], tier=T, cost=330),
+    H("m_skip_one_dispatch_n7", "main", ["C02", "C14", "C13", "C01", "C10"], ["Parser::skip_one", "nested! (depth budget)", "Parser::parse_literal"],
+      "every buffer of length <= 7 x every start index x every budget d in 1..=255 x every nested recogniser E",
+      stubs=[CUT_SYNTAX, M_WS, M_STR, M_NUM, M_NEST], cost=125),
+    H("m_get_array_checked_n6", "main", ["C10", "C14"], ["Parser::get_from_array_checked", "Parser::skip_space_peek"],
+      "every buffer of length <= 6 x index 0..=3 x every E", stubs=[CUT_SYNTAX, M_WS, M_ONE, CUT_PIT], cost=240),
+    H("m_get_array_checked_n7", "main", ["C10", "C14"], ["Parser::get_from_array_checked", "Parser::skip_space_peek"],
+      "every buffer of length <= 7 x index 0..=3 x every E", stubs=[CUT_SYNTAX, M_WS, M_ONE, CUT_PIT], tier=T, cost=280),
+    H("m_get_object_checked_n7", "main", ["C10", "C14"], ["Parser::get_from_object_checked", "Parser::parse_object_clo"],
+      "every buffer of length <= 7 x every escape-free ASCII key of length <= 2 x every E", stubs=[CUT_SYNTAX, M_WS, M_ONE, M_KEY, CUT_PIT], cost=150),
+    H("m_get_object_checked_n9", "main", ["C10", "C14"], ["Parser::get_from_object_checked", "Parser::parse_object_clo"],
+      "every buffer of length <= 9 x every escape-free ASCII key of length <= 2 x every E", stubs=[CUT_SYNTAX, M_WS, M_ONE, M_KEY, CUT_PIT], tier=T, cost=760),
+    H("m_array_elem_lazy_n7", "main", ["C12", "C14"], ["Parser::parse_array_elem_lazy (check = true)", "Parser::skip_space_peek"],
+      "every buffer of length <= 7 x every start index x first in {true,false} x every E", stubs=[CUT_SYNTAX, M_WS, M_ONE], cost=125),
+    H("m_entry_lazy_n7", "main", ["C12", "C14"], ["Parser::parse_entry_lazy (check = true)", "Parser::parse_object_clo"],
+      "every buffer of length <= 7 x every start index x first in {true,false} x every E; escape-free keys", stubs=[CUT_SYNTAX, M_WS, M_ONE, M_KEY], cost=175),
+    H("m_entry_lazy_n9", "main", ["C12", "C14"], ["Parser::parse_entry_lazy (check = true)", "Parser::parse_object_clo"],
+      "every buffer of length <= 9 x every start index x first in {true,false} x every E; escape-free keys", stubs=[CUT_SYNTAX, M_WS, M_ONE, M_KEY], tier=T, cost=275),
+    H("u_parser_error_clamp_n6", "main", ["C20", "C01"], ["Parser::error", "Parser::error_index"],
+      "every buffer of length <= 6 x every reader index x every recorded error index (usize)", stubs=[CUT_SYNTAX], cost=2),
+    H("u_parser_error_clamp_padded_n6", "main", ["C20", "C01"], ["Parser::error (PaddedSliceRead)", "PaddedSliceRead::{index,set_index,as_u8_slice}"],
+      "6-byte document + 64-byte padding x every cursor position inside the padded buffer x every recorded error index", stubs=[CUT_SYNTAX], cost=1),
     H("m_number_visit_raw_n7", "main", ["C03", "C08"], ["Parser::parse_number_visit (copying DOM driver, use_rawnumber)", "Parser::parse_number_inplace (in-place DOM driver, use_rawnumber)"],
-      "every buffer of length <= 7 x every start index of a number x both drivers", stubs=[CUT_SYNTAX, M_NUM]),
-]
+      "every buffer of length <= 7 x every start index of a number x both drivers", stubs=[CUT_SYNTAX, M_NUM], cost=110),
+)
 
-HARNESSES += [
-    H("k_position_from_index_n8", "main", ["C20"], ["reader::Position::from_index"], "every buffer of length <= 8 x every index (usize)"),
-    H("u_utf8_deferred_verdict_n6", "main", ["C02", "C20"], ["Read::check_utf8_final", "Read::next_invalid_utf8", "error::invalid_utf8"],
-      "every buffer of length <= 6 x every position of the first invalid byte (the verdict itself comes from simdutf8, trusted)", stubs=[CUT_SYNTAX]),
-]
-
-HARNESSES += [
-    H("w_buffered_writer_short_writes", "main", ["C05"], ["writer::BufferedWriter::{write,reserve_with,flush_len}", "WriteExt for Vec<u8>"],
-      "inner writer accepting 1..=4 bytes per call x <= 4 symbolic committed bytes between two punctuation writes", stubs=[CUT_FMT]),
-    H("w_io_bufwriter_order", "main", ["C05"], ["WriteExt for io::BufWriter<W>::{reserve_with,flush_len}", "WriteExt for Vec<u8>"],
-      "one pending byte in the BufWriter followed by two committed bytes (symbolic values)", stubs=[CUT_FMT], exp_gb=6),
-]
-
-M_DOMSTR = "contract model: Parser::parse_string_owned / parse_string_inplace -> RFC 8259 string recogniser + string event (decoding itself is C09's subject)"
-M_DOMVAL = "contract model: Parser::parse_value / parse_value2 -> whitespace + abstract value recogniser E + value event (induction hypothesis)"
-HARNESSES += [
+# DOM drivers: event streams
+add(
+    H("m_dom_object2_n7", "main", ["C03", "C02"], ["Parser::parse_object2 (copying DOM driver)", "Parser::parse_object_clo"],
+      "every buffer of length <= 7 after '{' x every E; whole event stream compared", stubs=[CUT_SYNTAX, M_WS, M_DOMSTR, M_DOMVAL], cost=335),
+    H("m_dom_object_n7", "main", ["C02", "C03"], ["Parser::parse_object (in-place DOM driver)", "Parser::parse_object_clo"],
+      "every buffer of length <= 7 after '{' x every E; whole event stream compared", stubs=[CUT_SYNTAX, M_WS, M_DOMSTR, M_DOMVAL], cost=335),
     H("m_dom_object2_n8", "main", ["C02", "C03"], ["Parser::parse_object2 (copying DOM driver)", "Parser::parse_object_clo"],
-      "every buffer of length <= 8 after '{' x every E; whole event stream compared", stubs=[CUT_SYNTAX, M_WS, M_DOMSTR, M_DOMVAL], timeout=1200),
-    H("m_dom_array2_n7", "main", ["C02", "C03"], ["Parser::parse_array2 (copying DOM driver)", "nested! (depth budget)"],
-      "every buffer of length <= 7 after '[' without a directly nested '[' x every E; whole event stream compared",
-      stubs=[CUT_SYNTAX, M_WS, M_DOMSTR, "contract models: parse_number_visit / parse_literal_visit -> recogniser + leaf event; parse_object2 -> abstract E + value event"], timeout=1200),
-    H("m_dom_array_n7", "main", ["C02", "C03"], ["Parser::parse_array (in-place DOM driver)", "nested! (depth budget)"],
-      "every buffer of length <= 7 after '[' without a directly nested '[' x every E; whole event stream compared",
-      stubs=[CUT_SYNTAX, M_WS, M_DOMSTR, "contract models: parse_number_inplace / parse_literal_visit -> recogniser + leaf event; parse_object -> abstract E + value event"], timeout=1200),
+      "every buffer of length <= 8 after '{' x every E; whole event stream compared", stubs=[CUT_SYNTAX, M_WS, M_DOMSTR, M_DOMVAL], tier=T, cost=355),
     H("m_dom_object_n8", "main", ["C02", "C03"], ["Parser::parse_object (in-place DOM driver)", "Parser::parse_object_clo"],
-      "every buffer of length <= 8 after '{' x every E; whole event stream compared", stubs=[CUT_SYNTAX, M_WS, M_DOMSTR, M_DOMVAL], timeout=1200),
-]
+      "every buffer of length <= 8 after '{' x every E; whole event stream compared", stubs=[CUT_SYNTAX, M_WS, M_DOMSTR, M_DOMVAL], tier=T, cost=355),
+)
 
-CUT_DROP = "cut: core::mem::drop -> forget (the recursive drop glue of Parsed/OwnedLazyValue exhausts memory; which decoding is returned/cached is decided, that a box is freed is not)"
-HARNESSES += [
-    H("e_owned_load", "main", ["C18", "C01"], ["lazyvalue::owned::LazyRaw::load", "LazyRaw::clone_lazyraw"],
-      "one shared LazyRaw: 2 loads by the reader under test + clone, the other reader's publish at any atomic step", native_replay=False,
-      stubs=[ATOMIC, "cut: Parser::load_owned_lazyvalue -> fixed decoding Bool(true)", "cut: Read::from -> empty reader (unused by the cut parser)", CUT_DROP],
-      timeout=1500, mem_gb=28, exp_gb=10),
+# ================= string decoding ================================================================
+add(
+    H("k_unicode_copying", "main", ["C09", "C02"], ["Parser::parse_escaped_utf8", "codepoint_to_utf8 (caller's validity test)"],
+      "every buffer of length <= 10 after `\\u` (all truncations) x {strict, lossy}", stubs=[CUT_SYNTAX], cost=14),
+    H("u_parse_string_raw_borrowed_n8", "main", ["C09", "C02", "C10"], ["Parser::parse_string_raw (escape-free branch)"],
+      "every buffer of length <= 8 after the opening quote with no backslash before the closing quote",
+      stubs=[CUT_SYNTAX, MAXEPU8, "cut: parse_string_escaped must not be entered (asserted)"], cost=35),
+    H("b_parse_string_raw_borrowed_w28", "main", ["C09", "C02", "C10"], ["Parser::parse_string_raw (32-byte block loop + tail, escape-free)", "StringBlock"],
+      "40-byte buffer after the opening quote: neutral 'x' except an 8-byte symbolic window at 28..36 without a backslash, closing quote at 38",
+      stubs=[CUT_SYNTAX, MAXEPU8, "cut: parse_string_escaped must not be entered (asserted)"], cost=160, exp_gb=6,
+      unwindset=[("ref_string_end", None, 42), ("::parse_string_raw", -1, 12), ("b_parse_string_raw_borrowed_w28", None, 10)]),
+)
+
+# ================= src/util/string.rs, unicode.rs =================================================
+add(
+    H("k_string_block", "main", ["C09", "C02"], ["StringBlock::new", "StringBlock::{has_unescaped,has_quote_first,has_backslash,quote_index,bs_index,unescaped_index}", "BitMask::before/first_offset"],
+      "all 32-byte blocks (complete)", stubs=[MAXEPU8], cost=40),
+    H("k_string_tables", "main", ["C05", "C09"], ["ESCAPED_TAB", "QUOTE_TAB", "NEED_ESCAPED"], "all 256 bytes (complete)", cost=1),
+    H("k_check_cross_page", "main", ["C01", "C05"], ["check_cross_page"], "all pointers <= usize::MAX-64 (complete)", cost=1),
+    H("u_format_string_n3", "main", ["C05", "C01"], ["format_string", "escape_unchecked", "escaped_mask", "check_cross_page"],
+      "every byte string of length <= 3 (superset of valid UTF-8), with and without quotes; tail path (n < 32)", stubs=[MAXEPU8, CUT_FMT], mem_gb=20, exp_gb=8, cost=315),
+    H("u_format_string_n4", "main", ["C05"], ["format_string", "escape_unchecked", "escaped_mask", "check_cross_page"],
+      "every byte string of length <= 4, with and without quotes", stubs=[MAXEPU8, CUT_FMT], tier=T, cost=430, mem_gb=20, exp_gb=8),
+    H("u_format_string_n6", "main", ["C05"], ["format_string", "escape_unchecked", "escaped_mask", "check_cross_page"],
+      "every byte string of length <= 6, with and without quotes", stubs=[MAXEPU8, CUT_FMT], tier=T, cost=730, mem_gb=32, exp_gb=16),
+    H("k_hex_to_u32", "main", ["C09", "C01"], ["hex_to_u32_nocheck", "DIGIT_TO_VAL32"], "all 2^32 four-byte groups (complete)", cost=1),
+    H("k_codepoint_to_utf8", "main", ["C09", "C01"], ["codepoint_to_utf8"], "all u32 code points (complete)", cost=1),
+    H("k_unicode_inplace", "main", ["C09", "C01"], ["handle_unicode_codepoint_mut", "repr_utf16_surrogate", "hex_to_u32_nocheck", "codepoint_to_utf8"],
+      "all 2^80 sequences `\\uXXXX` + 6 following bytes x {strict, lossy} (complete for one escape sequence / surrogate pair)", cost=10),
+)
+
+# ================= error.rs / reader.rs ===========================================================
+add(
+    H("u_error_syntax_n6", "main", ["C20", "C01"], ["Error::syntax", "Position::from_index"], "every input of length <= 6 x every index <= len",
+      stubs=["cut: alloc::fmt::format, String::from_utf8_lossy, str::repeat -> empty (snippet text only; window arithmetic real)"], cost=5),
+    H("u_error_classify", "main", ["C20"], ["Error::classify", "Error::is_not_found"], "all 27 data-free error codes (complete)", cost=1),
+    H("k_position_from_index_n8", "main", ["C20"], ["reader::Position::from_index"], "every buffer of length <= 8 x every index (usize)", cost=2),
+    H("u_utf8_deferred_verdict_n6", "main", ["C02", "C20"], ["Read::check_utf8_final", "Read::next_invalid_utf8", "error::invalid_utf8"],
+      "every buffer of length <= 6 x every position of the first invalid byte (the verdict itself comes from simdutf8, trusted)", stubs=[CUT_SYNTAX], cost=2),
+)
+
+# ================= value/node.rs ==================================================================
+add(
+    H("k_meta_roundtrip_idx_lt_2p29", "main", ["C03", "C01"], ["Meta::pack_dom_node", "Meta::unpack_dom_node", "Meta::get_kind", "Meta::get_type", "Meta::unpack_strlen"],
+      "all four dom kinds x all idx < 2^29 x all len: u32 (complete for the field width)", cost=1),
+    H("k_meta_roundtrip_idx_ge_2p29", "main", ["C03", "C01"], ["Meta::pack_dom_node", "Meta::unpack_dom_node"],
+      "all idx in [2^29, 2^31) x all len: u32 - the region of known finding F6", expect="known-fail", finding="F6", cost=1),
+    H("k_meta_static_types", "main", ["C03"], ["Meta::new", "Meta::get_type", "Meta::pack_static_str", "Meta::unpack_strlen"],
+      "all 9 static type tags, all static string lengths < u32::MAX (complete)", cost=1),
+)
+
+# ================= serde/de.rs ====================================================================
+_DEPTH = [("m_depth_seq", "deserialize_seq/tuple/tuple_struct"), ("m_depth_map", "deserialize_map"),
+          ("m_depth_struct_seq", "deserialize_struct on '['"), ("m_depth_struct_map", "deserialize_struct on '{'")]
+for _n, _f in _DEPTH:
+    add(H(_n, "main", ["C01"], ["serde::de::DepthGuard::guard/drop", "impl Deserializer for &mut Deserializer<R>: " + _f, "Deserializer::end_seq/end_map"],
+          "every budget d in 1..=255 (inductive step: nested access sees d-1, d restored, d == 1 rejected without recursing); input fixed to an empty container",
+          stubs=[CUT_SYNTAX, M_WS, CUT_PIT, CUT_FIX], cost=10))
+add(
+    H("m_seq_next_element_n6", "main", ["C02"], ["SeqAccess::next_element_seed", "Deserializer::end_seq", "deserialize_ignored_any"],
+      "every buffer of length <= 6 x every start index x first in {true,false} x every E", stubs=[CUT_SYNTAX, M_WS, M_ONE], cost=11),
+    H("m_end_seq_map_n6", "main", ["C02"], ["Deserializer::end_seq", "Deserializer::end_map", "Parser::parse_array_end"],
+      "every buffer of length <= 6 x every start index", stubs=[CUT_SYNTAX, M_WS], cost=4),
+    H("m_stream_latch_n5", "main", ["C20"], ["StreamDeserializer::next", "Deserializer::into_stream"],
+      "every buffer of length <= 5 x every start index x arbitrary latch state x every E; two consecutive calls", stubs=[CUT_SYNTAX, M_WS, M_ONE], cost=4),
+    H("u_deserialize_rawnumber_n7", "main", ["C08", "C02"], ["Deserializer::deserialize_rawnumber"],
+      "every buffer of length <= 7 (bare and quoted literals)", stubs=[CUT_SYNTAX, M_WS, M_NUM], cost=20),
+)
+
+# ================= lazy values ====================================================================
+add(
+    H("e_lazy_parse_from", "main", ["C18", "C01"], ["lazyvalue::value::Inner::parse_from", "impl Clone for Inner", "impl Drop for Inner"],
+      "one shared Inner: 2 reads + 1 read through a clone by the reader under test, clone before/after the first read, both drop orders, "
+      "the other reader's publish at any of the atomic steps (all two-reader interleavings at atomic-step granularity)", native_replay=False,
+      stubs=[ATOMIC, "cut: from_slice_unchecked::<String> -> fixed decoding \"x\"", "instrumented: Arc::new -> same allocation + reference ledger"], cost=60),
+    H("e_lazy_parse_from_frees", "main", ["C18", "C01"], ["lazyvalue::value::Inner::parse_from", "impl Clone for Inner", "impl Drop for Inner"],
+      "same histories without the ledger's extra handles: every release really frees (CBMC dealloc-layout / double-free / use-after-free checks)",
+      native_replay=False, stubs=[ATOMIC, "cut: from_slice_unchecked::<String> -> fixed decoding \"x\""], cost=40),
+    H("e_owned_load1", "main", ["C18", "C01"], ["lazyvalue::owned::LazyRaw::load"],
+      "one shared LazyRaw: one load by the reader under test, the other reader's publish at either atomic step", native_replay=False,
+      stubs=[ATOMIC, CUT_LOAD, CUT_DROP], mem_gb=28, exp_gb=10, cost=235),
+    H("e_owned_load", "main", ["C18"], ["lazyvalue::owned::LazyRaw::load"],
+      "one shared LazyRaw: 2 loads by the reader under test, the other reader's publish at any atomic step", native_replay=False,
+      stubs=[ATOMIC, CUT_LOAD, CUT_DROP], tier=T, cost=510, mem_gb=28, exp_gb=10),
     H("e_owned_load_then_parse", "main", ["C13", "C18", "C01"], ["LazyRaw::load", "LazyRaw::parse"],
-      "sequence: optional shared read that fills the cache, then the mutable take-out; the cache must not keep the pointer it handed out", native_replay=False,
-      stubs=[ATOMIC, "cut: Parser::load_owned_lazyvalue -> fixed decoding Bool(true)", "cut: Read::from -> empty reader", CUT_DROP], timeout=1500, mem_gb=28, exp_gb=10),
+      "sequence: optional shared read that fills the cache, then the mutable take-out; the cache must not keep the pointer it handed out",
+      native_replay=False, stubs=[ATOMIC, CUT_LOAD, CUT_DROP], tier=T, cost=365, mem_gb=28, exp_gb=10),
+    H("u_owned_from_lazy_types", "main", ["C13", "C01"], ["impl From<LazyValue> for OwnedLazyValue", "OwnedLazyValue::get_type/as_bool", "LazyRaw::get_type"],
+      "raw text of each JSON value class (true,false,null,number,negative number,string,[],{}), conversion From<LazyValue>; string escape status symbolic", exp_gb=8, cost=12),
+    H("u_owned_new_types", "main", ["C13", "C01"], ["OwnedLazyValue::new (used by to_lazyvalue and the parser)", "OwnedLazyValue::get_type/as_bool", "LazyRaw::get_type"],
+      "raw text of each JSON value class, constructor `new`; string escape status symbolic", exp_gb=8, cost=12),
     H("u_owned_mut_probe_keeps_raw", "main", ["C13"], ["OwnedLazyValue::as_array_mut", "OwnedLazyValue::as_object_mut", "LazyRaw::get_type"],
-      "four concrete raw texts (number, escaped string, {}, []) probed for the other container kind",
-      stubs=["cut: Parser::load_owned_lazyvalue -> fixed decoding", "cut: Read::from -> empty reader", CUT_DROP], timeout=1500, mem_gb=28, exp_gb=10),
-]
+      "four concrete raw texts (number, escaped string, {}, []) probed for the other container kind", stubs=[CUT_LOAD, CUT_DROP], mem_gb=28, exp_gb=8, cost=6),
+    H("m_array_iter_latch", "main", ["C12", "C20"], ["ArrayJsonIter::next_elem_impl"],
+      "arbitrary (first, ending, skip_strict) state x valid/invalid deferred UTF-8 verdict x every outcome of the element driver; two consecutive calls",
+      stubs=[CUT_SYNTAX, "contract model: Parser::parse_array_elem_lazy -> nondeterministic {element, end, error} (its grammar is decided by m_array_elem_lazy_n7)"], cost=5),
+    H("m_object_iter_latch", "main", ["C12", "C20"], ["ObjectJsonIter::next_entry_impl"],
+      "arbitrary (first, ending, skip_strict) state x valid/invalid deferred UTF-8 verdict x every outcome of the entry driver; two consecutive calls",
+      stubs=[CUT_SYNTAX, "contract model: Parser::parse_entry_lazy -> nondeterministic {entry, end, error} (its grammar is decided by m_entry_lazy_n7)"], cost=7),
+)
 
-CUT_PF = "cut: sonic_number::parse_float -> nondeterministic Ok(Float)/Err(FloatMustBeFinite) (classification and index only)"
-HARNESSES += [
+# ================= serialization ==================================================================
+add(
+    H("k_float_nonfinite_null", "main", ["C05", "C08"], ["Serializer::serialize_f64", "Serializer::serialize_f32", "Formatter::write_null/write_f64/write_f32"],
+      "all 2^64 f64 and all 2^32 f32 bit patterns (complete for the finite/non-finite branch)",
+      stubs=["cut: ryu::Buffer::format_finite -> \"1.5\" (digit generation is outside the claim)"], cost=2),
+    H("w_buffered_writer_short_writes", "main", ["C05"], ["writer::BufferedWriter::{write,reserve_with,flush_len}", "WriteExt for Vec<u8>"],
+      "inner writer accepting 1..=4 bytes per call x <= 4 symbolic committed bytes between two punctuation writes", stubs=[CUT_FMT], cost=20),
+    H("w_io_bufwriter_order", "main", ["C05"], ["WriteExt for io::BufWriter<W>::{reserve_with,flush_len}", "WriteExt for Vec<u8>"],
+      "one pending byte in the BufWriter followed by two committed bytes (symbolic values)", stubs=[CUT_FMT], exp_gb=6, cost=3),
+)
+
+# ================= sonic-number ===================================================================
+add(
     H("u_parse_number_int_len1_12", "number", ["C07", "C08"], ["sonic_number::parse_number (integer path)"],
-      "every decimal digit string of length 1..=12 without superfluous leading zero, with and without '-'", stubs=[CUT_PF]),
+      "every decimal digit string of length 1..=12 without superfluous leading zero, with and without '-'", stubs=[CUT_PF], cost=145),
     H("u_parse_number_int_len19", "number", ["C07", "C08"], ["sonic_number::parse_number (integer path, 19 digits)"],
-      "every 19-digit string, with and without '-' (i64::MIN / 2^63 boundary)", stubs=[CUT_PF], timeout=1500),
+      "every 19-digit string, with and without '-' (i64::MIN / 2^63 boundary)", stubs=[CUT_PF], cost=115),
     H("u_parse_number_int_len20", "number", ["C07", "C08"], ["sonic_number::parse_number (integer path, 20 digits, overflowing_mul/add cut-over)"],
-      "every 20-digit string, with and without '-' (u64::MAX boundary)", stubs=[CUT_PF], timeout=1500),
+      "every 20-digit string, with and without '-' (u64::MAX boundary)", stubs=[CUT_PF], cost=120),
     H("u_parse_number_int_len13_20", "number", ["C07", "C08"], ["sonic_number::parse_number (integer path)"],
-      "every decimal digit string of length 13..=20, with and without '-'", stubs=[CUT_PF], tier="thorough", timeout=3600),
+      "every decimal digit string of length 13..=20, with and without '-'", stubs=[CUT_PF], tier=T),
     H("u_parse_number_grammar_n7", "number", ["C02", "C07", "C01"], ["sonic_number::parse_number", "parse_number_fraction (scalar branch)", "parse_exponent"],
-      "every byte string of length <= 7 starting with '-' or a digit", stubs=[CUT_PF]),
-    H("k_parse_exponent_n8", "number", ["C07", "C01"], ["sonic_number::parse_exponent"], "every buffer of length <= 8"),
-    H("k_float_fast_mul_e1", "number", ["C07"], ["sonic_number::parse_float_fast"], "E = 1, every significand < 2^20"),
-    H("k_float_fast_mul_e10", "number", ["C07"], ["sonic_number::parse_float_fast"], "E = 10, every significand < 2^20", tier="thorough", timeout=2400),
+      "every byte string of length <= 7 starting with '-' or a digit", stubs=[CUT_PF], cost=30),
+    H("k_parse_exponent_n8", "number", ["C07", "C01"], ["sonic_number::parse_exponent"], "every buffer of length <= 8", cost=5),
+    H("k_float_fast_mul_e1", "number", ["C07"], ["sonic_number::parse_float_fast"], "E = 1, every significand < 2^20", cost=2),
+    H("k_float_fast_mul_e10", "number", ["C07"], ["sonic_number::parse_float_fast"], "E = 10, every significand < 2^20", tier=T),
     H("k_float_fast_div_e3", "number", ["C07"], ["sonic_number::parse_float_fast"], "E = -3, every significand < 2^16",
-      stubs=["assumption: IEEE 754 division is correctly rounded"]),
+      stubs=["assumption: IEEE 754 division is correctly rounded"], cost=7),
     H("k_float_fast_div_e10", "number", ["C07"], ["sonic_number::parse_float_fast"], "E = -10, every significand < 2^16",
-      stubs=["assumption: IEEE 754 division is correctly rounded"], tier="thorough", timeout=2400),
-    H("k_decimal_try_add_digit", "number", ["C01", "C07"], ["sonic_number::decimal::Decimal::try_add_digit"],
-      "every digit count 0..=MAX_DIGITS+4 x every digit (complete)"),
+      stubs=["assumption: IEEE 754 division is correctly rounded"], tier=T),
+    H("k_decimal_try_add_digit", "number", ["C01", "C07"], ["sonic_number::decimal::Decimal::try_add_digit"], "every digit count 0..=MAX_DIGITS+4 x every digit (complete)", cost=2),
     H("k_decimal_round_6", "number", ["C07"], ["sonic_number::decimal::Decimal::round"],
-      "every trimmed decimal of <= 6 significant digits x decimal point in -1..=7 x truncated flag"),
-    H("k_pow10_tables", "number", ["C07"], ["POW10_FLOAT", "POW10_UINT"], "all 23 / 18 entries (complete)"),
-]
+      "every trimmed decimal of <= 6 significant digits x decimal point in -1..=7 x truncated flag", cost=11),
+    H("k_pow10_tables", "number", ["C07"], ["POW10_FLOAT", "POW10_UINT"], "all 23 / 18 entries (complete)", cost=1),
+)
 
+# ================= sonic-simd (selected backend) and the external crate ===========================
 SIMD_IN = [
     ("k_simd_u8x16_eq", "u8x16 loadu/storeu/eq/bitmask (sse2.rs)"), ("k_simd_u8x16_le", "u8x16 le (sse2.rs)"),
     ("k_simd_u8x16_splat", "u8x16 splat"), ("k_simd_u8x32_eq", "u8x32 loadu/storeu/eq/bitmask (v256.rs over sse2.rs)"),
@@ -314,30 +318,49 @@ SIMD_IN = [
     ("k_bits_u32", "BitMask for u32"), ("k_bits_u64", "BitMask for u64"),
 ]
 for _n, _f in SIMD_IN:
-    HARNESSES.append(H(_n, "simd", ["C17"], [_f], "all inputs, every lane via a symbolic lane index (complete)",
-                       stubs=[MAXEPU8] if _n.endswith("_le") else [], timeout=600))
-
-INTR = "env models (validated natively against the CPU by selftest): "
+    add(H(_n, "simd", ["C17"], [_f], "all inputs, every lane via a symbolic lane index (complete)",
+          stubs=[MAXEPU8] if _n.endswith("_le") else [], timeout=600, cost=30))
 for _be, _what in (("portable", "v128.rs + v256.rs + v512.rs"), ("native", "sse2.rs + avx2.rs + v512.rs")):
     for _fn, _f in (("u8x32", "u8x32 loadu/storeu/eq/le/splat/bitmask"), ("i8x32", "i8x32 gt/le/eq/splat/bitmask"),
                     ("u8x64", "u8x64 eq/le/bitmask"), ("mask_ops", "m8x32 | & |= splat")):
-        HARNESSES.append(H("x_%s_%s" % (_be, _fn), "ext", ["C17"], ["%s backend (%s): %s" % (_be, _what, _f)],
-                           "all inputs, every lane via a symbolic lane index (complete)",
-                           stubs=[INTR + "_mm_max_epu8, _mm256_max_epu8"] if _fn.startswith("u8") else [],
-                           qname="harness::k_%s::%s" % (_be, _fn), timeout=600))
-HARNESSES += [
+        add(H("x_%s_%s" % (_be, _fn), "ext", ["C17"], ["%s backend (%s): %s" % (_be, _what, _f)],
+              "all inputs, every lane via a symbolic lane index (complete)",
+              stubs=[INTR + "_mm_max_epu8, _mm256_max_epu8"] if _fn.startswith("u8") else [],
+              qname="harness::k_%s::%s" % (_be, _fn), timeout=600, cost=40))
+add(
     H("x_arch_prefix_xor", "ext", ["C17", "C10"], ["util::arch::x86_64::prefix_xor", "util::arch::fallback::prefix_xor"],
-      "all 2^64 masks (complete)", stubs=[INTR + "_mm_clmulepi64_si128"], qname="harness::k_arch_prefix_xor"),
+      "all 2^64 masks (complete)", stubs=[INTR + "_mm_clmulepi64_si128"], qname="harness::k_arch_prefix_xor", cost=70),
     H("x_arch_nonspace_native", "ext", ["C17"], ["util::arch::x86_64::get_nonspace_bits"],
-      "all 64-byte blocks, every lane (complete)", stubs=[INTR + "_mm256_shuffle_epi8"], qname="harness::k_arch_nonspace_native"),
+      "all 64-byte blocks, every lane (complete)", stubs=[INTR + "_mm256_shuffle_epi8"], qname="harness::k_arch_nonspace_native", cost=35),
     H("x_arch_nonspace_fallback", "ext", ["C17", "C10", "C02"], ["util::arch::fallback::get_nonspace_bits"],
-      "all 64-byte blocks, every lane (complete)", qname="harness::k_arch_nonspace_fallback"),
-] + [
-    H("x_num_str2int_%d" % _k, "ext", ["C17", "C07"] if _k in (1, 8) else ["C17"], ["sonic_number::arch::x86_64::simd_str2int", "sonic_number::arch::fallback::simd_str2int"],
-      "need = %d, all 16-byte inputs whose first byte is a digit (complete under the callers' precondition)" % _k,
-      stubs=[INTR + "_mm_maddubs_epi16, _mm_madd_epi16, _mm_packus_epi32, _mm_sub_epi8 (wrapping)"], qname="harness::k_num_str2int_%d" % _k, timeout=1200 if _k <= 8 else 5400, tier="quick" if _k <= 8 else "thorough")
-    for _k in range(1, 10)  # need = 10..16 did not finish within 20 minutes (64-bit multiply chains); see DESIGN.md
-] + []
+      "all 64-byte blocks, every lane (complete)", qname="harness::k_arch_nonspace_fallback", cost=10),
+)
+for _k in range(1, 10):  # need = 10..16 did not finish within 20 minutes (64-bit multiply chains); see DESIGN.md
+    add(H("x_num_str2int_%d" % _k, "ext", ["C17", "C07"] if _k in (1, 8) else ["C17"],
+          ["sonic_number::arch::x86_64::simd_str2int", "sonic_number::arch::fallback::simd_str2int"],
+          "need = %d, all 16-byte inputs whose first byte is a digit (complete under the callers' precondition)" % _k,
+          stubs=[INTR + "_mm_maddubs_epi16, _mm_madd_epi16, _mm_packus_epi32, _mm_sub_epi8 (wrapping)"],
+          qname="harness::k_num_str2int_%d" % _k, tier="quick" if _k <= 8 else T, timeout=900 if _k <= 8 else 5400))
+
+# ---- experimental harnesses: kept in the harness files, runnable with --dev, not part of any claim ----
+EXPERIMENTAL = [
+    H("u_parse_str_n7", "main", [], ["Parser::parse_str (copying decoder incl. escape branch)"], "every byte string <= 7 after the quote, strict",
+      stubs=[CUT_SYNTAX, MAXEPU8, "models: Vec::reserve/push/extend_from_slice -> in place"], tier=T, timeout=5400, mem_gb=32, exp_gb=16,
+      unwindset=[("ref_decode_string", None, 9), ("ref_has_backslash", None, 9), ("::parse_string_raw", -1, 9), ("::parse_string_escaped", -1, 9), ("::parse_escaped_char", None, 5),
+                 ("vec_extend_from_slice_model", None, 9)]),
+    H("b_format_string_w28", "main", [], ["format_string (32-byte block loop + tail)"], "34-byte string with a 6-byte window at 28..34",
+      stubs=[MAXEPU8, CUT_FMT], tier=T, exp_gb=10, mem_gb=24,
+      unwindset=[("ref_escape", None, 36), ("escape_unchecked", None, 8), ("::format_string", -1, 8), ("b_format_string_w28", None, 8)]),
+    H("m_dom_array2_n7", "main", [], ["Parser::parse_array2"], "every buffer <= 7 after '[' without nested '['", stubs=[CUT_SYNTAX, M_WS, M_DOMSTR], tier=T),
+    H("m_dom_array_n7", "main", [], ["Parser::parse_array"], "every buffer <= 7 after '[' without nested '['", stubs=[CUT_SYNTAX, M_WS, M_DOMSTR], tier=T),
+    H("m_get_array_unchecked_n8", "main", [], ["Parser::get_from_array"], "well-formed texts <= 8", stubs=[CUT_SYNTAX, M_WS], tier=T, mem_gb=28, exp_gb=10),
+    H("m_get_object_unchecked_n9", "main", [], ["Parser::get_from_object"], "well-formed texts <= 9", stubs=[CUT_SYNTAX, M_WS], tier=T, mem_gb=28, exp_gb=10),
+    H("m_depth_any_seq", "main", [], ["deserialize_any on '['"], "every budget d", stubs=[CUT_SYNTAX, M_WS, CUT_PIT, CUT_FIX], tier=T),
+    H("m_depth_any_map", "main", [], ["deserialize_any on '{'"], "every budget d", stubs=[CUT_SYNTAX, M_WS, CUT_PIT, CUT_FIX], tier=T),
+    H("m_get_object_checked_n8", "main", [], ["Parser::get_from_object_checked"], "every buffer <= 8", stubs=[CUT_SYNTAX, M_WS, M_ONE, M_KEY, CUT_PIT], tier=T),
+    H("m_entry_lazy_n9x", "main", [], ["tmp"], "tmp", tier=T),
+]
+HARNESSES.extend(h for h in EXPERIMENTAL if h.name != "m_entry_lazy_n9x")
 
 BY_NAME = {h.name: h for h in HARNESSES}
 
